@@ -6,7 +6,7 @@ q = sys.argv[1]; pid = sys.argv[2] if len(sys.argv) > 2 else None
 c = reg[q]
 if pid: c = run.contract_for_property(c, pid)
 t = time.time()
-rep = verify.verify_function(q, c, schemas[c.get("schema")], timeout_ms=10000)
+rep = verify.verify_function(q, c, schemas[c.get("schema")], timeout_ms=10000, contracts=reg)
 print("paths", rep.paths, "unsupported", rep.unsupported, "%.2fs" % (time.time() - t), "side proofs", rep.lemma_side_proofs)
 for ob in rep.obligations:
     print("%-10s %-8s %-60s %.2fs %s" % (ob.status, ob.kind, ob.name, ob.seconds, (ob.note or '')[:80] if ob.status not in ('proved',) else ''))
